@@ -29,7 +29,12 @@ def reentry_case(rep, drv, rnd, i):
                            ('disj', ('ite', goal, 'tru'), 'fail'), ('ite', goal, 'tru')])
     hx = ('call', 'h', [V('X')])
     kyx = ('call', 'k', [V('Y'), V('X')])
+    ifthen = ('ite', ('call', 'c', [V('X')]), yes)
+    wrapped = rnd.choice([('conj', 'tru', ifthen), ('conj', ifthen, 'tru'), ('conj', 'tru', ('conj', ifthen, 'tru'))])
     prog += [
+        # `true , (C -> T)` next to `;` is a disjunction of an if-then and E, not an if-then-else
+        ('t6', [V('X'), V('R')], ('disj', wrapped, no)),
+        ('t7', [V('X'), V('R')], ('disj', ('conj', 'tru', ('neg', hx)), ('conj', ('call', 'c', [V('X')]), no))),
         ('t1', [V('X'), V('R')], ('disj', ('ite', ('conj', ('call', 'c', [V('X')]), test(hx)), yes), no)),
         ('t2', [V('Y'), V('X'), V('R')], ('conj', ('call', 'c', [V('Y')]),
                                            ('disj', ('ite', ('conj', ('call', 'c', [V('X')]), test(kyx)), yes), no))),
@@ -39,7 +44,7 @@ def reentry_case(rep, drv, rnd, i):
                                   ('conj', ('call', 'c', [V('X')]), ('conj', ('disj', ('ite', hx, yes), no), test(('call', 'k', [V('X'), V('X')])))))),
     ]
     ops = [('load', 'overwrite', prog)]
-    for name, ar in [('t1', 2), ('t2', 3), ('t3', 1), ('t4', 2), ('t5', 2)]:
+    for name, ar in [('t1', 2), ('t2', 3), ('t3', 1), ('t4', 2), ('t5', 2), ('t6', 2), ('t7', 2)]:
         ops.append(('query', name, ('all',), [[Sym('v'), j] for j in range(ar)]))
     rep.count('re-entered-constructs')
     if scen.three_way(rep, drv, ops, 'case %d re-entry' % i) == 'ok':
